@@ -177,6 +177,11 @@ func (e mwEngine) Gen(t *rapid.T, tier string) any {
 		kinds := []string{"maxsubs", "recvunique", "sendunique"}
 		st := MwSpec{Kind: rapid.SampledFrom(kinds).Draw(t, "stateful"), N: rapid.IntRange(1, 3).Draw(t, "n")}
 		c.Stack = []MwSpec{st}
+		if st.Kind != "maxsubs" && rapid.IntRange(0, 2).Draw(t, "second") == 0 {
+			// both unique filters in one stack, with different window sizes
+			other := map[string]string{"recvunique": "sendunique", "sendunique": "recvunique"}[st.Kind]
+			c.Stack = append(c.Stack, MwSpec{Kind: other, N: st.N%3 + 1})
+		}
 		// optionally surround it by deterministic limit middlewares
 		if rapid.IntRange(0, 2).Draw(t, "wrap") == 0 {
 			c.Stack = append([]MwSpec{{Kind: "maxfilters", N: 2}}, c.Stack...)
